@@ -119,13 +119,29 @@ def loader_cases(draw):
     n = draw(st.one_of(st.integers(0, 40), st.sampled_from([64, 100, 257])))
     return {"n": n, "batch": draw(st.one_of(st.integers(1, n + 3), st.integers(1, 9))),
             "transform": draw(st.sampled_from(["none", "none_default", "record", "new_objects"])),
-            "partial_first_pass": draw(st.integers(0, 3))}
+            "partial_first_pass": draw(st.integers(0, 3)),
+            # label arrays are per-sample along axis 0 whatever their trailing shape (id vector, column, one-hot rows,
+            # several targets); same for the features
+            "yshape": draw(st.sampled_from(["vector", "vector", "column", "wide3", "wide2x2"])),
+            "xshape": draw(st.sampled_from(["matrix", "matrix", "vector", "image"]))}
 
 
 def check_loader(c, rec):
     n, b = c["n"], c["batch"]
     X = np.array([[i, 2 * i + 1] for i in range(n)], dtype=np.float32).reshape(n, 2)
     y = np.arange(n, dtype=np.float32)
+    ys, xs = c.get("yshape", "vector"), c.get("xshape", "matrix")
+    if ys == "column":
+        y = y.reshape(n, 1)
+    elif ys == "wide3":
+        y = np.stack([y, -y, 2 * y + 1], axis=1).reshape(n, 3)
+    elif ys == "wide2x2":
+        y = np.stack([y, -y, 2 * y + 1, y + 0.5], axis=1).reshape(n, 2, 2)
+    if xs == "vector":
+        X = X[:, 0].copy()
+    elif xs == "image":
+        X = np.stack([X, X + 0.25], axis=1).reshape(n, 1, 2, 2)
+    rec.tag("labels_" + ys, "features_" + xs)
     calls = []
 
     class Rec(data.DataLoaderCallback):
@@ -147,7 +163,7 @@ def check_loader(c, rec):
         dl = data.DataLoader(X, y, b, transform=Rec() if t == "record" else New())
     rec.nontrivial(n % b != 0 or n < b)
     rec.tag("transform_" + t)
-    ctx = f"n={n} batch_size={b} transform={t}"
+    ctx = f"n={n} batch_size={b} transform={t} X{X.shape} y{y.shape}"
     want_len = n // b
     if len(dl) != want_len:
         raise Violation("loader_len", f"len(loader) = {len(dl)}, expected floor(n/batch) = {want_len}; {ctx}")
@@ -190,7 +206,7 @@ def check_loader(c, rec):
                 raise Violation("loader_batch_size", f"pass {pass_no} batch {j} has {len(Xb)}/{len(yb)} samples, expected {b}; {ctx}")
             if not np.array_equal(yb, y[lo:hi]) or not np.array_equal(Xb, X[lo:hi]):
                 raise Violation("loader_alignment", f"pass {pass_no} batch {j} is not samples [{lo},{hi}) of both arrays "
-                                                    f"(labels {yb[:4].tolist()}); {ctx}")
+                                                    f"(labels {yb.ravel()[:4].tolist()}); {ctx}")
         if pass_no == 2 and t in ("none", "none_default") and want_len:
             # loader[j] is the j-th batch as well
             for j in (0, want_len - 1):
